@@ -258,4 +258,95 @@ Section Pcc.
   Proof.
     intros Ho Hi Hall. apply run_pcc; [exact (WF_init _ _ _ _ _ _ _ _ _ _ _ _ _ _ _ HC o i Ho Hi)|exact Hall|]. cbn. discriminate.
   Qed.
+
+  (* ---- inbound: nothing is surfaced on a new connection before its CONNACK was accepted ---- *)
+  Notation packet_log := (packet_log enc dec ores ores_reset ires ires_reset v_in cfg).
+  Notation step_ilog := (step_ilog enc dec dec_feed ores ores_reset ires ires_reset ires_resolve v_in cfg).
+
+  Lemma handle_packet_pc_ev (s : state) now p :
+    s_st s = PendingConnack -> packet_olog s p = [] -> packet_log s now p = [].
+  Proof.
+    intros Hst Hl.
+    assert (Hpre : pre_connack s = true) by (unfold pre_connack; rewrite Hst; reflexivity).
+    unfold AliasRunLog.packet_log.
+    destruct p as [c|c|pb|a|a|a|a|sb|a|un|a| | |d|a]; cbn [Model.handle_packet app]; try reflexivity.
+    - unfold AliasRunLog.packet_olog in Hl. destruct (connack_accepted s c) eqn:Ea; [discriminate|]. cbn [app].
+      unfold AliasRunLog.connack_accepted in Ea. unfold Model.handle_connack. rewrite Hst in *. cbn [pstate_eqb negb andb] in *.
+      destruct (ca_rc c =? 0); cbn [negb andb] in *; [|reflexivity].
+      destruct (v_in None (Connack c)); cbn [is_ok] in *; [discriminate|reflexivity|reflexivity].
+    - unfold handle_publish. rewrite Hpre. reflexivity.
+    - unfold handle_puback. rewrite Hpre. reflexivity.
+    - unfold handle_pubrec. rewrite Hpre. reflexivity.
+    - unfold handle_pubrel. rewrite Hpre. reflexivity.
+    - unfold handle_pubcomp. rewrite Hpre. reflexivity.
+    - unfold handle_suback. rewrite Hpre. reflexivity.
+    - unfold handle_unsuback. rewrite Hpre. reflexivity.
+    - unfold handle_pingresp. rewrite Hst. reflexivity.
+    - unfold handle_disconnect. rewrite Hpre. reflexivity.
+  Qed.
+
+  Lemma packet_log_accepted (s : state) now p : packet_olog s p <> [] -> exists l, packet_log s now p = IConnack :: l.
+  Proof.
+    unfold AliasRunLog.packet_olog, AliasRunLog.packet_log.
+    destruct p as [c|c|pb|a|a|a|a|sb|a|un|a| | |d|a]; try congruence.
+    destruct (connack_accepted s c); [|congruence]. intros _. eexists. reflexivity.
+  Qed.
+
+  Lemma handle_packets_a_surface now : forall ps (s : state) dn ev pb,
+    s_st s = PendingConnack ->
+    In (ISurface pb) (fst (snd (handle_packets_a s now ps dn ev))) ->
+    exists l1 l2, fst (snd (handle_packets_a s now ps dn ev)) = l1 ++ IConnack :: l2 /\ In (ISurface pb) l2.
+  Proof.
+    induction ps as [|p rest IH]; intros s dn ev pb Hst Hin; cbn [AliasRunLog.handle_packets_a] in *; [destruct Hin|].
+    cbv zeta in *.
+    set (li := match p with
+               | Publish pb0 => [IResolve pb0 (res_of (ires_resolve (s_ires s) (pub_alias pb0) (pub_topic pb0)))]
+               | _ => [] end) in *.
+    assert (Hli : ~ In (ISurface pb) li).
+    { subst li. destruct p; cbn [In]; intros H; repeat (match type of H with _ \/ _ => destruct H as [H|H]; [discriminate H|] end); exact H. }
+    assert (Hres : forall x : outcome (state * packet),
+              x = match p with
+                  | Publish pb0 => do (i', t) <- ires_resolve (s_ires s) (pub_alias pb0) (pub_topic pb0) ;
+                                   Ok (s <| s_ires := i' |>, Publish (with_topic pb0 t))
+                  | _ => Ok (s, p) end ->
+              match x with Ok (s1, _) => s_st s1 = s_st s | _ => True end).
+    { intros x ->. destruct p; try reflexivity. destruct (ires_resolve _ _ _) as [[i' t]| |]; cbn; try exact I. reflexivity. }
+    specialize (Hres _ eq_refl). clearbody li.
+    destruct (match p with Publish pb0 => _ | _ => _ end) as [[s1 p1]|k|site]; cbn [fst snd] in Hin |- *; [|contradiction..].
+    destruct (v_in (s_settings s1) p1); cbn [fst snd] in Hin |- *; [|contradiction..].
+    assert (Hst1 : s_st s1 = PendingConnack) by congruence.
+    destruct (packet_olog s1 p1) eqn:El.
+    - (* no accepted CONNACK: nothing surfaced by this packet, the engine keeps waiting *)
+      pose proof (handle_packet_pc_ev s1 now p1 Hst1 El) as Epl. pose proof (handle_packet_pc s1 now p1 Hst1 El) as Est.
+      destruct (h_out (handle_packet s1 now p1)); cbn [fst snd] in Hin |- *; rewrite Epl, app_nil_r in *; try contradiction.
+      apply in_app_or in Hin. destruct Hin as [Hin|Hin]; [contradiction|].
+      destruct (IH _ _ _ pb Est Hin) as (l1 & l2 & E & Hl2). exists (li ++ l1), l2. rewrite E, app_assoc. auto.
+    - (* an accepted CONNACK comes first *)
+      destruct (packet_log_accepted s1 now p1) as (lc & Epl); [rewrite El; discriminate|].
+      assert (Hsplit : forall tl, In (ISurface pb) ((li ++ packet_log s1 now p1) ++ tl) ->
+                exists l1 l2, (li ++ packet_log s1 now p1) ++ tl = l1 ++ IConnack :: l2 /\ In (ISurface pb) l2).
+      { intros tl H. rewrite Epl in *. exists li, (lc ++ tl). split; [rewrite <- app_assoc; reflexivity|].
+        apply in_app_or in H. destruct H as [H|H]; [|apply in_or_app; right; exact H].
+        apply in_app_or in H. destruct H as [H|[H|H]]; [contradiction|discriminate|apply in_or_app; left; exact H]. }
+      destruct (h_out (handle_packet s1 now p1)); cbn [fst snd] in Hin |- *; [apply Hsplit; exact Hin|..];
+        rewrite (app_nil_end (li ++ packet_log s1 now p1)) in Hin |- *; apply Hsplit; exact Hin.
+  Qed.
+
+  (* every state: a PUBLISH is surfaced by a data call only when the engine was Connected / PendingDisconnect
+     before the call, or was waiting for the CONNACK and accepted it EARLIER IN THE SAME CALL (which reset
+     the inbound resolver): bindings of an earlier connection are never used *)
+  Theorem surface_needs_connack (s : state) now data pb :
+    In (ISurface pb) (step_ilog s (EvData now data)) ->
+    s_st s = Connected \/ s_st s = PendingDisconnect \/
+    (s_st s = PendingConnack /\
+     exists l1 l2, step_ilog s (EvData now data) = l1 ++ IConnack :: l2 /\ In (ISurface pb) l2).
+  Proof.
+    cbn [AliasRunLog.step_ilog]. unfold AliasRunLog.data_logs.
+    destruct (s_st s) eqn:Est; cbn [pstate_eqb orb andb]; try (intros []); auto.
+    destruct (connect_in_queue s); [intros []|].
+    destruct (dec_feed (cf_version cfg) (max_incoming_size cfg) (s_dec s) data) as [[d' ps] r].
+    destruct r as [u|k|site]; [|intros []..].
+    intros Hin. right. right. split; [reflexivity|].
+    apply (handle_packets_a_surface now ps (s <| s_dec := d' |>) [] [] pb); [exact Est|exact Hin].
+  Qed.
 End Pcc.
